@@ -39,6 +39,9 @@ type Upd struct {
 	Open   uint64 // fabricated circuit key HtlcID passed as openKey (adds)
 	Close  uint64 // fabricated circuit key HtlcID passed as closeKey (settle/fail)
 	Coalesced int // how many later update_fee messages this entry absorbed
+	HasSrc bool   // removal was issued with a forwarding-package add reference
+	SrcH   uint64 // ... its package height
+	SrcI   uint16 // ... and index
 }
 
 // Commit identifies a commitment: height on its owner's chain and the prefix
